@@ -1,7 +1,7 @@
 /-
   C09 — a free-standing `-` before a string or character literal, end to end.
 
-  Since the repair 509396b of lexpr-macros/src/parser.rs the macro takes a free-standing `-` for the
+  Since the repair 70c5316 of lexpr-macros/src/parser.rs the macro takes a free-standing `-` for the
   sign of the following literal only when that literal is numeric; `WF` (MacroSpec: `sepOk`,
   `startsNum`) accordingly excludes only `-` directly before an integer or float literal.  The trees
   `(- "s")`, `(- 'a')`, `(- "s" 1)` are therefore inside `C09_agree`, `C09_agree_full` and the
